@@ -617,3 +617,238 @@ func newCanon() func(ssa.Value) ssa.Value {
 		return v
 	}
 }
+
+// ---- W-SEQ: ADTS header field sequence -----------------------------------------------------------------
+
+type bitField struct {
+	width int64
+	field string
+	pos   token.Pos
+}
+
+// seqOfBitCalls: the unconditional (dominating the last return), loop-free calls of method `name` on a value of
+// named type recvType in f, in execution order, with their constant width argument (index widthArg of Args).
+func seqOfBitCalls(f *ssa.Function, recvType, name string, widthArg int) ([]*ssa.Call, bool) {
+	var lastRet *ssa.BasicBlock
+	for _, b := range f.Blocks {
+		if b == f.Recover {
+			continue // the synthetic return of a function with defers
+		}
+		if len(b.Instrs) > 0 {
+			switch b.Instrs[len(b.Instrs)-1].(type) {
+			case *ssa.Return:
+				lastRet = b
+			}
+		}
+	}
+	if lastRet == nil {
+		return nil, false
+	}
+	inLoop := map[*ssa.BasicBlock]bool{}
+	for _, l := range naturalLoops(f) {
+		for b := range l.blocks {
+			inLoop[b] = true
+		}
+	}
+	var out []*ssa.Call
+	// dominator chain of the last return, entry first
+	var chain []*ssa.BasicBlock
+	for d := lastRet; d != nil; d = d.Idom() {
+		chain = append([]*ssa.BasicBlock{d}, chain...)
+	}
+	for _, b := range chain {
+		if inLoop[b] {
+			continue
+		}
+		for _, ins := range b.Instrs {
+			call, ok := ins.(*ssa.Call)
+			if !ok {
+				continue
+			}
+			cal := call.Call.StaticCallee()
+			if cal == nil || cal.Name() != name || cal.Signature.Recv() == nil || typeName(cal.Signature.Recv().Type()) != recvType {
+				continue
+			}
+			if widthArg >= len(call.Call.Args) {
+				return nil, false
+			}
+			if cs, ok := constSet(call.Call.Args[widthArg], 0); !ok || len(cs) != 1 {
+				return nil, false
+			}
+			out = append(out, call)
+		}
+	}
+	return out, true
+}
+
+func fieldRead(v ssa.Value, typ string, depth int) string {
+	if depth > 6 {
+		return ""
+	}
+	switch x := v.(type) {
+	case *ssa.Field:
+		if typeName(x.X.Type()) == typ {
+			if fv := fieldVar(x.X.Type(), x.Field); fv != nil {
+				return fv.Name()
+			}
+		}
+	case *ssa.UnOp:
+		if fa, ok := x.X.(*ssa.FieldAddr); ok && typeName(fa.X.Type()) == typ {
+			return fieldNameOf(fa)
+		}
+		return fieldRead(x.X, typ, depth+1)
+	case *ssa.Convert:
+		return fieldRead(x.X, typ, depth+1)
+	case *ssa.BinOp:
+		if s := fieldRead(x.X, typ, depth+1); s != "" {
+			return s
+		}
+		return fieldRead(x.Y, typ, depth+1)
+	}
+	return ""
+}
+
+func fieldWritten(v ssa.Value, typ string, depth int) string {
+	if depth > 6 || v.Referrers() == nil {
+		return ""
+	}
+	for _, ref := range *v.Referrers() {
+		switch x := ref.(type) {
+		case *ssa.Store:
+			if fa, ok := x.Addr.(*ssa.FieldAddr); ok && x.Val == v && typeName(fa.X.Type()) == typ {
+				return fieldNameOf(fa)
+			}
+		case *ssa.Convert:
+			if s := fieldWritten(x, typ, depth+1); s != "" {
+				return s
+			}
+		case *ssa.BinOp:
+			if x.Op == token.ADD || x.Op == token.SUB {
+				if s := fieldWritten(x, typ, depth+1); s != "" {
+					return s
+				}
+			}
+		}
+	}
+	return ""
+}
+
+// ruleADTSSequence (W-SEQ): the bit fields ADTSHeader.Encode writes after the 16 bits of sync word/ID/layer/
+// protection (which the decoder consumes in its sync search) are, in order, width and struct field, the fields
+// DecodeADTSHeader reads unconditionally after the search.
+func ruleADTSSequence(c *Ctx, r *Report) {
+	key := "aac.ADTSHeader:Encode~DecodeADTSHeader"
+	enc := c.ssaFunc(r, "W-SEQ", "aac", "ADTSHeader.Encode")
+	dec := c.ssaFunc(r, "W-SEQ", "aac", "DecodeADTSHeader")
+	if enc == nil || dec == nil {
+		return
+	}
+	ws, ok1 := seqOfBitCalls(enc, "Writer", "Write", 2)
+	rs, ok2 := seqOfBitCalls(dec, "Reader", "Read", 1)
+	if !ok1 || !ok2 || len(ws) == 0 || len(rs) == 0 {
+		r.Undecided("W-SEQ", key, c.Pos(enc.Pos()), "the encoder does not write, or the decoder does not read, the header as a sequence of constant-width bit fields through bits.Writer / bits.Reader: the layouts cannot be compared")
+		return
+	}
+	var W, R []bitField
+	for _, w := range ws {
+		cs, _ := constSet(w.Call.Args[2], 0)
+		W = append(W, bitField{cs[0], fieldRead(w.Call.Args[1], "ADTSHeader", 0), w.Pos()})
+	}
+	for _, x := range rs {
+		cs, _ := constSet(x.Call.Args[1], 0)
+		R = append(R, bitField{cs[0], fieldWritten(x, "ADTSHeader", 0), x.Pos()})
+	}
+	// skip the 16 bits consumed by the sync search
+	skip := int64(0)
+	i := 0
+	for i < len(W) && skip < 16 {
+		skip += W[i].width
+		i++
+	}
+	if skip != 16 {
+		r.Bad("W-SEQ", key, c.Pos(enc.Pos()), fmt.Sprintf("the encoder's leading fields do not add up to the 16 bits of sync word, ID, layer and protection flag (got %d)", skip))
+		return
+	}
+	W = W[i:]
+	if len(W) != len(R) {
+		r.Bad("W-SEQ", key, c.Pos(enc.Pos()), fmt.Sprintf("the encoder writes %d fields after the first 16 bits, the decoder reads %d", len(W), len(R)))
+		return
+	}
+	total := int64(16)
+	for k := range W {
+		total += W[k].width
+		if W[k].width != R[k].width {
+			r.Bad("W-SEQ", key, c.Pos(W[k].pos), fmt.Sprintf("field %d is written with %d bits and read with %d", k+1, W[k].width, R[k].width))
+			return
+		}
+		if W[k].field != R[k].field {
+			r.Bad("W-SEQ", key, c.Pos(W[k].pos), fmt.Sprintf("field %d (%d bits) is written from ADTSHeader.%s but read into ADTSHeader.%s", k+1, W[k].width, orDash(W[k].field), orDash(R[k].field)))
+			return
+		}
+	}
+	if total != 56 {
+		r.Bad("W-SEQ", key, c.Pos(enc.Pos()), fmt.Sprintf("the header written is %d bits, not 56", total))
+		return
+	}
+	r.OK("W-SEQ", key, c.Pos(enc.Pos()), fmt.Sprintf("%d bit fields after the sync/ID/layer/protection bits: same widths, same struct fields, same order; 56 bits in all", len(W)))
+}
+
+func orDash(s string) string {
+	if s == "" {
+		return "(constant/ignored)"
+	}
+	return s
+}
+
+// ruleEscapeSites (W-ESC): AudioSpecificConfig.Encode can write a frequency as the 4-bit escape 0xf followed by 24
+// explicit bits in as many places as DecodeAudioSpecificConfig can read one (24-bit reads, counting each call site
+// of a helper that contains the read). W-BITS checks decode-then-encode over what the decoder accepts; this is the
+// necessary condition in the other direction: a place where the encoder may emit the escape and the decoder reads
+// a plain table index makes valid output undecodable.
+func ruleEscapeSites(c *Ctx, r *Report) {
+	key := "aac.AudioSpecificConfig:24-bit-escape-sites"
+	enc := c.ssaFunc(r, "W-ESC", "aac", "AudioSpecificConfig.Encode")
+	dec := c.ssaFunc(r, "W-ESC", "aac", "DecodeAudioSpecificConfig")
+	if enc == nil || dec == nil {
+		return
+	}
+	var count func(f *ssa.Function, method string, widthArg int, depth int) int
+	count = func(f *ssa.Function, method string, widthArg int, depth int) int {
+		n := 0
+		for _, b := range f.Blocks {
+			for _, ins := range b.Instrs {
+				call, ok := ins.(*ssa.Call)
+				if !ok {
+					continue
+				}
+				cal := call.Call.StaticCallee()
+				if cal == nil {
+					continue
+				}
+				if cal.Name() == method && cal.Signature.Recv() != nil && cal.Pkg != nil && cal.Pkg.Pkg.Name() == "bits" {
+					if widthArg < len(call.Call.Args) {
+						if cs, ok := constSet(call.Call.Args[widthArg], 0); ok && len(cs) == 1 && cs[0] == 24 {
+							n++
+						}
+					}
+					continue
+				}
+				if depth < 2 && cal.Pkg != nil && cal.Pkg.Pkg.Name() == "aac" && cal != f {
+					n += count(cal, method, widthArg, depth+1)
+				}
+			}
+		}
+		return n
+	}
+	w := count(enc, "Write", 2, 0)
+	rd := count(dec, "Read", 1, 0)
+	if w == 0 || rd == 0 {
+		r.Undecided("W-ESC", key, c.Pos(enc.Pos()), fmt.Sprintf("24-bit explicit frequency: %d write sites, %d read sites found", w, rd))
+		return
+	}
+	if w != rd {
+		r.Bad("W-ESC", key, c.Pos(dec.Pos()), fmt.Sprintf("the encoder can write a 24-bit explicit frequency at %d places, the decoder can read one at %d: a frequency outside the table written with the escape cannot be read back", w, rd))
+		return
+	}
+	r.OK("W-ESC", key, c.Pos(dec.Pos()), fmt.Sprintf("%d places where the encoder may write the 24-bit escape, %d where the decoder may read it", w, rd))
+}
